@@ -554,6 +554,7 @@ func init() {
 		ruleFCListNonNil(r)
 		ruleFCUnknownClosed(r)
 		ruleFCDropAll(r)
+		ruleFCOpenReturns(r)
 		// the collectors remove and truncate files the cache may have lent out
 		r.support([]string{"gc-not-current", "header-before-remove"})
 	},
